@@ -162,7 +162,7 @@ def run(ck):
         return probs
 
     w = tables.switch_map(lib.single(prog, HH + "Connection::write"))
-    r = tables.chain_map(lib.single(prog, HH + "Connection::parseRaw"))
+    r = tables.reader_map(prog, lib.single(prog, HH + "Connection::parseRaw"))
     pr_ = lib.single(prog, HH + "Connection::parseRaw")
     ins = all(any(a.get("const") == "e:Pistache::CaseSensitivity::Insensitive" for a in e.get("args", [])) for e in pr_.calls(lambda e: (e.get("callee") or "") == "Pistache::match_string"))
     ck.require(len(w) >= 2 and len(r) >= 2, "Connection tables not extracted (%d/%d)" % (len(w), len(r)))
@@ -170,7 +170,7 @@ def run(ck):
     ck.ob("C16-R3", "table:Connection", not probs, pr_.loc, pr_, "; ".join(probs) or "writer %s ⊆ reader %s (case-insensitive=%s)" % (sorted(w.values()), sorted(r), ins))
     w = tables.switch_map(lib.single(prog, HH + "encodingString"))
     er = lib.single(prog, HH + "EncodingHeader::parseRaw")
-    r = tables.chain_map(er)
+    r = tables.reader_map(prog, er)
     ck.require(len(w) >= 5 and len(r) >= 5, "Encoding tables not extracted (%d/%d)" % (len(w), len(r)))
     probs = agree("Encoding", w, r, True, allow_unmapped=(HH + "Encoding::Unknown",))
     ck.ob("C16-R3", "table:Encoding", not probs, er.loc, er, "; ".join(probs) or "writer %s ⊆ reader %s" % (sorted(w.values()), sorted(r)))
@@ -178,8 +178,8 @@ def run(ck):
     lams = prog.lambdas_in(cw)
     maps = [tables.switch_map(l) for l in lams]
     names = [m for m in maps if any(isinstance(v, str) and v for v in m.values())]
-    deltas = [m for m in maps if m and all(isinstance(v, bool) for v in m.values())]
-    ck.require(names and deltas, "directiveString / hasDelta lambdas not found in CacheControl::write")
+    preds = [p_ for p_ in (tables.enum_predicate(l) for l in lams if not any(isinstance(v, str) and v for v in tables.switch_map(l).values())) if p_]
+    ck.require(names, "directive-name lambda not found in CacheControl::write")
     triv = timed = None
     for v in prog.vars:
         if v["name"].endswith("TrivialDirectives") and "CacheControl::parseRaw" in (v.get("func") or ""):
@@ -191,16 +191,19 @@ def run(ck):
     rd = dict(triv)
     rd.update(timed)
     probs = agree("CacheControl", names[0], rd, False, allow_unmapped=("Pistache::Http::CacheDirective::Ext",))
-    wd = {k.rsplit("::", 1)[1] for k, v in deltas[0].items() if v is True}
     rt = {v.rsplit("::", 1)[1] for v in timed.values()}
-    if wd != rt:
-        probs.append("directives written with delta-seconds %s differ from the reader's timed table %s" % (sorted(wd), sorted(rt)))
+    if preds:
+        wd = {k.rsplit("::", 1)[1] for k in preds[0]}
+        if wd != rt:
+            probs.append("directives written with delta-seconds %s differ from the reader's timed table %s" % (sorted(wd), sorted(rt)))
+    else:
+        ck.note("C16-R3: the has-delta predicate of CacheControl::write is not in a recognised shape: timed-set agreement not checked")
     if set(triv) & set(timed):
         probs.append("a directive is both trivial and timed: %s" % sorted(set(triv) & set(timed)))
     ck.ob("C16-R3", "table:CacheControl", not probs, cr.loc, cr, "; ".join(probs) or "%d directive names agree; delta-bearing set == timed table %s" % (len(rd), sorted(rt)))
     ew = lib.single(prog, HH + "Expect::write")
     lits = [a["const"][2:] for e in ew.events("call") if e.get("op") == "<<" for a in e.get("args", []) if isinstance(a.get("const"), str) and a["const"].startswith("s:")]
-    erd = tables.chain_map(lib.single(prog, HH + "Expect::parseRaw"))
+    erd = tables.reader_map(prog, lib.single(prog, HH + "Expect::parseRaw"))
     ok = bool(lits) and all(l in erd for l in lits)
     epr = lib.single(prog, HH + "Expect::parseRaw")
     # the reader must compare over the given length (not a NUL-terminated scan) — shared with C03
